@@ -5,7 +5,7 @@
    [rec]/[wh] (how nested code and while$ loops are run) are universally quantified in the
    per-built-in laws; [exec n] / [while_loop n] are the instances the interpreter uses. *)
 From Pybtex Require Import Base.Prelude Base.PyChar Base.PyStr Model.BibtexStr Model.Wrap Model.Bst
-  Spec.BstSem Proofs.Bst Proofs.BstSort Proofs.BstSem.
+  Spec.BstSem Spec.BstTyping Proofs.Bst Proofs.BstSort Proofs.BstSem Proofs.BstLaws Proofs.BstTyping.
 From Coq Require Import Permutation Sorted.
 
 (* --- more fuel never changes the outcome of a run that ended (normally or with an error) *)
@@ -271,6 +271,142 @@ Theorem while_sound : forall fmt cw n st p f st',
 Proof. exact Proofs.BstSem.while_sound. Qed.
 Print Assumptions while_sound.
 
+
+(* --- the remaining built-ins, on operands of the documented kinds: which operand is which, and
+       which string primitive (C12's / C11's subject) computes the result *)
+Theorem substring_law : forall fmt cw rec wh st len start s r, st_stack st = VInt len :: VInt start :: VStr s :: r ->
+  builtin_step fmt cw rec wh B_substring st = Ok (set_stack st (VStr (bibtex_substring s start len) :: r)).
+Proof. exact Proofs.BstLaws.substring_law. Qed.
+Print Assumptions substring_law.
+
+Theorem text_prefix_law : forall fmt cw rec wh st n s r, st_stack st = VInt n :: VStr s :: r ->
+  builtin_step fmt cw rec wh B_text_prefix st = bind (bibtex_prefix s n) (fun p => Ok (set_stack st (VStr p :: r))).
+Proof. exact Proofs.BstLaws.text_prefix_law. Qed.
+Print Assumptions text_prefix_law.
+
+Theorem text_length_law : forall fmt cw rec wh st s r, st_stack st = VStr s :: r ->
+  builtin_step fmt cw rec wh B_text_length st = bind (bibtex_len s) (fun n => Ok (set_stack st (VInt (Z.of_nat n) :: r))).
+Proof. exact Proofs.BstLaws.text_length_law. Qed.
+Print Assumptions text_length_law.
+
+Theorem purify_law : forall fmt cw rec wh st s r, st_stack st = VStr s :: r ->
+  builtin_step fmt cw rec wh B_purify st = bind (bibtex_purify s) (fun p => Ok (set_stack st (VStr p :: r))).
+Proof. exact Proofs.BstLaws.purify_law. Qed.
+Print Assumptions purify_law.
+
+Theorem width_law : forall fmt cw rec wh st s r, st_stack st = VStr s :: r ->
+  builtin_step fmt cw rec wh B_width st = bind (bibtex_width cw s) (fun w => Ok (set_stack st (VInt w :: r))).
+Proof. exact Proofs.BstLaws.width_law. Qed.
+Print Assumptions width_law.
+
+Theorem num_names_law : forall fmt cw rec wh st s r, st_stack st = VStr s :: r ->
+  builtin_step fmt cw rec wh B_num_names st =
+  bind (split_name_list s) (fun ps => Ok (set_stack st (VInt (Z.of_nat (length ps)) :: r))).
+Proof. exact Proofs.BstLaws.num_names_law. Qed.
+Print Assumptions num_names_law.
+
+Theorem change_case_law : forall fmt cw rec wh st c m s r, st_stack st = VStr (c :: m) :: VStr s :: r ->
+  builtin_step fmt cw rec wh B_change_case st =
+  match mode_of c with
+  | Some k => bind (change_case s k) (fun t => Ok (set_stack st (VStr t :: r)))
+  | None => PyErr E_BST (-1)
+  end.
+Proof. exact Proofs.BstLaws.change_case_law. Qed.
+Print Assumptions change_case_law.
+
+Theorem format_name_law : forall fmt cw rec wh st f k names r parts,
+  st_stack st = VStr f :: VInt k :: VStr names :: r -> split_name_list names = Ok parts ->
+  builtin_step fmt cw rec wh B_format_name st =
+  if ((1 <=? k) && (k <=? Z.of_nat (length parts)))%Z
+  then bind (fmt (nth (Z.to_nat (k - 1)) parts []) f) (fun t => Ok (set_stack st (VStr t :: r)))
+  else PyErr E_BST (-1).
+Proof. exact Proofs.BstLaws.format_name_law. Qed.
+Print Assumptions format_name_law.
+
+Theorem add_period_law : forall fmt cw rec wh st s r, st_stack st = VStr s :: r ->
+  builtin_step fmt cw rec wh B_add_period st =
+  Ok (set_stack st (VStr (match s with [] => [] | _ => if ends_with_terminator s then s else s ++ [46%N] end) :: r)).
+Proof. exact Proofs.BstLaws.add_period_law. Qed.
+Print Assumptions add_period_law.
+
+Theorem empty_law : forall fmt cw rec wh st s r, st_stack st = VStr s :: r ->
+  builtin_step fmt cw rec wh B_empty st = Ok (set_stack st (VInt (if forallb is_space s then 1 else 0) :: r)).
+Proof. exact Proofs.BstLaws.empty_law. Qed.
+Print Assumptions empty_law.
+
+Theorem missing_law : forall fmt cw rec wh st v r, st_stack st = v :: r ->
+  builtin_step fmt cw rec wh B_missing st = Ok (set_stack st (VInt (match v with VMissing _ => 1 | _ => 0 end) :: r)).
+Proof. exact Proofs.BstLaws.missing_law. Qed.
+Print Assumptions missing_law.
+
+Theorem chr_to_int_law : forall fmt cw rec wh st c r, st_stack st = VStr [c] :: r ->
+  builtin_step fmt cw rec wh B_chr_to_int st = Ok (set_stack st (VInt (Z.of_N c) :: r)).
+Proof. exact Proofs.BstLaws.chr_to_int_law. Qed.
+Print Assumptions chr_to_int_law.
+
+Theorem chr_to_int_error : forall fmt cw rec wh st s r, st_stack st = VStr s :: r -> length s <> 1 ->
+  builtin_step fmt cw rec wh B_chr_to_int st = PyErr E_BST (-1).
+Proof. exact Proofs.BstLaws.chr_to_int_error. Qed.
+Print Assumptions chr_to_int_error.
+
+Theorem int_to_chr_law : forall fmt cw rec wh st z r, st_stack st = VInt z :: r -> (0 <= z <= 1114111)%Z ->
+  builtin_step fmt cw rec wh B_int_to_chr st = Ok (set_stack st (VStr [Z.to_N z] :: r)).
+Proof. exact Proofs.BstLaws.int_to_chr_law. Qed.
+Print Assumptions int_to_chr_law.
+
+Theorem int_to_str_law : forall fmt cw rec wh st z r, st_stack st = VInt z :: r ->
+  builtin_step fmt cw rec wh B_int_to_str st = Ok (set_stack st (VStr (Z_to_str z) :: r)).
+Proof. exact Proofs.BstLaws.int_to_str_law. Qed.
+Print Assumptions int_to_str_law.
+
+Theorem cite_law : forall fmt cw rec wh st key e, st_cur st = Some (key, e) ->
+  builtin_step fmt cw rec wh B_cite st = Ok (push (VStr key) st).
+Proof. exact Proofs.BstLaws.cite_law. Qed.
+Print Assumptions cite_law.
+
+Theorem type_law : forall fmt cw rec wh st key e, st_cur st = Some (key, e) ->
+  builtin_step fmt cw rec wh B_type st = Ok (push (VStr (e_type e)) st).
+Proof. exact Proofs.BstLaws.type_law. Qed.
+Print Assumptions type_law.
+
+Theorem top_law : forall fmt cw rec wh st v r s, st_stack st = v :: r -> py_str v = Ok s ->
+  builtin_step fmt cw rec wh B_top st = Ok (add_print (set_stack st r) (s ++ [c_nl])).
+Proof. exact Proofs.BstLaws.top_law. Qed.
+Print Assumptions top_law.
+
+Theorem warning_law : forall fmt cw rec wh st v r, st_stack st = v :: r ->
+  builtin_step fmt cw rec wh B_warning st = Ok (add_warn (set_stack st r) [WUser v]).
+Proof. exact Proofs.BstLaws.warning_law. Qed.
+Print Assumptions warning_law.
+
+(* --- type soundness: a program accepted by the checker of Spec/BstTyping.v (integers, strings / missing
+       fields, function literals, quoted variables; all built-ins except call.type$ and stack$; user functions
+       followed; if$ branches must agree, while$ conditions leave one integer, bodies nothing), run from a
+       well-formed state, never raises a foreign Python exception -- whatever the fuel -- and when it ends
+       normally the stack has the computed shape and the state is well-formed again.
+       Hypothesis on the library function: format_name itself raises no foreign exception. *)
+Theorem welltyped_no_crash : forall fmt cw G ent cf s p s',
+  (forall n f, fmt n f <> Crash) -> ctx_ok G = true ->
+  check G ent cf s p = Some s' ->
+  forall n st, state_ok G ent st -> sabs (st_stack st) s ->
+  exec fmt cw n st p <> Crash /\
+  (forall st', exec fmt cw n st p = Ok st' -> state_ok G ent st' /\ sabs (st_stack st') s').
+Proof. exact Proofs.BstTyping.welltyped_no_crash. Qed.
+Print Assumptions welltyped_no_crash.
+
+(* the same statement with int.to.chr$ typed "integer -> string" is refuted by the faithful model: beyond
+   the C int range Python's chr() raises OverflowError, which builtins.py does not turn into a BibTeXError.
+   (The checker therefore accepts int.to.chr$ only on a literal in 0..0x10FFFF.) *)
+Theorem welltyped_no_crash_refuted_int_to_chr : forall fmt cw rec wh st z r, st_stack st = VInt z :: r ->
+  (z < -2147483648 \/ 2147483647 < z)%Z -> builtin_step fmt cw rec wh B_int_to_chr st = Crash.
+Proof. exact Proofs.BstTyping.int_to_chr_overflow. Qed.
+Print Assumptions welltyped_no_crash_refuted_int_to_chr.
+
+Theorem state_ok_start : forall G st, ctx_ok G = true -> st_vars st = G -> st_evars st = [] -> st_buf st = [] ->
+  state_ok G false st.
+Proof. exact Proofs.BstTyping.state_ok_start. Qed.
+Print Assumptions state_ok_start.
+
 (* ---------------------------------------------------------------------------------- *)
 (* non-vacuity: the hypotheses are met by the interpreter's real initial state, and the
    statements compute the expected values *)
@@ -354,3 +490,29 @@ Example bigstep_example :
 Proof.
   eapply exec_sound with (n := 10). vm_compute. reflexivity.
 Qed.
+
+(* the checker accepts a program with a bounded loop, nested literals, assignment and string built-ins, in the
+   interpreter's initial context extended by INTEGERS {gi} STRINGS {gs}; the context is sane *)
+Definition G1 := Eval vm_compute in
+  vset (s2l "gs") (OStr (VStr [])) (vset (s2l "gi") (OInt (VInt 0)) initial_vars).
+Definition prog1 :=
+  [IInt 3; IQuote (s2l "gi"); IId (s2l ":=");
+   IFun [IId (s2l "gi"); IInt 0; IId (s2l ">")];
+   IFun [IId (s2l "gi"); IInt 1; IId (s2l "-"); IQuote (s2l "gi"); IId (s2l ":=");
+         IStr (s2l "ab{c}"); IId (s2l "gi"); IId (s2l "text.prefix$"); IId (s2l "purify$");
+         IStr (s2l "u"); IId (s2l "change.case$"); IId (s2l "write$")];
+   IId (s2l "while$");
+   IId (s2l "gi"); IFun [IStr (s2l "yes")]; IFun [IInt 65; IId (s2l "int.to.chr$")]; IId (s2l "if$");
+   IId (s2l "duplicate$"); IId (s2l "*"); IQuote (s2l "gs"); IId (s2l ":="); IId (s2l "newline$")].
+Example welltyped_example :
+  ctx_ok G1 = true /\ check G1 false 40 [] prog1 = Some [] /\
+  (* ... and it is not accepted when an operand has the wrong kind *)
+  check G1 false 40 [] [IStr (s2l "a"); IInt 1; IId (s2l "+")] = None /\
+  check G1 false 40 [] [IInt 2147483648; IId (s2l "int.to.chr$")] = None /\
+  check G1 false 40 [] [IInt 65; IId (s2l "int.to.chr$")] = Some [AStr].
+Proof. vm_compute. repeat split. Qed.
+Example welltyped_run_example :
+  let st := set_vars (initial_state [] []) G1 in
+  option_map output_of (match exec fmt0 cw0 60 st prog1 with Ok s => Some s | _ => None end)
+  = Some (s2l "ABA" ++ [c_nl]).
+Proof. vm_compute. reflexivity. Qed.
